@@ -18,16 +18,31 @@ def ViewOk (y : Sys) : Prop := ∀ c ∈ y.clients, c.m.index ≠ 0 → ViewEq c
 /-- delivered indexes of every subscription never decreased -/
 def Mono (y : Sys) : Prop := ∀ c ∈ y.clients, c.mono = true
 
+/-- the consuming subscriber's token may read everything (ACL filtering of events is covered by
+    `consume_does_not_interfere` and by the Go monitors, not by the view theorems) -/
+def Unfiltered (y : Sys) (id : Nat) : Prop := ∀ c, getClient y id = some c → c.authz = .all
+
+instance (y : Sys) (id : Nat) : Decidable (Unfiltered y id) := by
+  unfold Unfiltered
+  cases getClient y id with
+  | none => exact isTrue (fun c h => by cases h)
+  | some c =>
+    by_cases h : c.authz = .all
+    · exact isTrue (fun d hd => by cases hd; exact h)
+    · exact isFalse (fun hh => h (hh c rfl))
+
 /-- the hypothesis of the partial theorems, one decidable-in-context condition per action:
     * commits are well-indexed (Raft) and their events are faithful (see `Faithful`; it fails
       exactly for the two catalog_events.go shapes refuted below),
     * a subscription starts while nothing is queued for publication (it may be resumed, served
       from the snapshot cache, or take a fresh snapshot that splices at the live tail),
-    * a restore happens while nothing is queued and no subscription is attached. -/
+    * a restore happens while nothing is queued and no subscription is attached,
+    * the consuming subscriber is `Unfiltered`. -/
 def CleanAct (y : Sys) : Act → Prop
   | .commit idx w => y.lastIdx < idx ∧ Faithful y.cat idx w
   | .subscribe id => CleanSubR y id
   | .restore c => WF c ∧ IdxBound c y.lastIdx ∧ y.queue = [] ∧ ∀ d ∈ y.clients, attached d = false
+  | .next id => Unfiltered y id
   | _ => True
 
 def CleanRun (y : Sys) : List Act → Prop
@@ -46,12 +61,12 @@ theorem AllInv.init (ttl : Bool) : AllInv (Sys.init ttl) :=
 theorem AllInv.step {y : Sys} (h : AllInv y) (a : Act) (hc : CleanAct y a) : AllInv (step y a) := by
   obtain ⟨hi, hm, pc, hr⟩ := h
   cases a with
-  | client id k t r => exact ⟨hi.addClient id k t r, hm.addClient id k t r, pc, hr.addClient id k t r⟩
+  | client id k t r a => exact ⟨hi.addClient id k t r a, hm.addClient id k t r a, pc, hr.addClient id k t r a⟩
   | commit idx w =>
     exact ⟨hi.commit idx w (by have := hc.1; omega) hc.2, hm.commit idx w hc.1, pc, hr.commit idx w hc.1 hc.2⟩
   | publishOne => exact ⟨hi.publishOne, hm.publishOne hi.cbuf, hr.publishOne⟩
   | subscribe id => exact ⟨hi.subscribeR hr id hc, hm.subscribeR id hc, pc, hr.subscribeR hi hm id hc⟩
-  | next id => exact ⟨hi.next id, hm.next id, pc, hr.next hi id⟩
+  | next id => exact ⟨hi.next id hc, hm.next id hc, pc, hr.next hi id hc⟩
   | unsub id => exact ⟨hi.unsub id, hm.unsub id, pc, hr.unsub hi id⟩
   | expire => exact ⟨hi.expire, hm.expire, pc, hr.expire⟩
   | restore c =>
@@ -83,6 +98,7 @@ def GuardAct (y : Sys) : Act → Prop
   | .commit idx w => y.lastIdx < idx ∧ Faithful y.cat idx w ∧ IndexSound y.cat idx w
   | .subscribe id => NoResume y id
   | .restore _ => False
+  | .next id => Unfiltered y id
   | _ => True
 
 def GuardRun (y : Sys) : List Act → Prop
@@ -91,11 +107,11 @@ def GuardRun (y : Sys) : List Act → Prop
 
 theorem InvG.stepG {y : Sys} (h : InvG y) (a : Act) (hc : GuardAct y a) : InvG (stepG y a) := by
   cases a with
-  | client id k t r => exact h.addClient id k t r
+  | client id k t r a => exact h.addClient id k t r a
   | commit idx w => exact h.commit idx w hc.1 hc.2.1 hc.2.2
   | publishOne => exact h.publishOne
   | subscribe id => exact h.subscribe id hc
-  | next id => exact h.nextG id
+  | next id => exact h.nextG id hc
   | unsub id => exact h.unsub id
   | expire => exact h.expire
   | restore c => exact absurd hc id
@@ -125,7 +141,7 @@ def CleanRunS (y : Sys) : List Act → Prop
 theorem CleanActS.clean {y : Sys} (h : AllInv y) {a : Act} (hc : CleanActS y a) : CleanAct y a := by
   cases a with
   | commit idx w => exact ⟨hc.1, faithful_of_cleanWrite h.inv.wf idx w hc.2⟩
-  | client id k t r => exact hc
+  | client id k t r a => exact hc
   | publishOne => exact hc
   | subscribe id => exact hc
   | next id => exact hc
